@@ -150,4 +150,59 @@ def Thread.midPushOn (th : Thread) (p : Bool) : Bool :=
   | .claimed q _ => q == p
   | _ => false
 
+/-! ### epochs of pushers (any number of threads pushing, no `consume` step granted): ghosts used by the theorems
+`conc_pushers_*` / `conc_in_order_*` of `Props/C16.lean` and by the driver op `pushers` -/
+
+/-- the values of the pushes a thread makes before its next `consume` -/
+def pushPrefix : List COp → List Nat
+  | .push v _ :: rest => v :: pushPrefix rest
+  | _ => []
+
+/-- granting thread `i` in state `s` does not execute a step of `consume` -/
+def noConsumeStep (s : Sys) (i : Nat) : Bool :=
+  match s.threads[i]? with
+  | none => true
+  | some th =>
+    match th.prog with
+    | [] => true
+    | op :: _ => !op.isConsume
+
+/-- no grant of the schedule executes a step of `consume` ("no drain in flight") -/
+def pushOnlySched : Sys → List Nat → Bool
+  | _, [] => true
+  | s, i :: sched => noConsumeStep s i && pushOnlySched (cstep s i) sched
+
+/-- the `(value, raw random number)` of the push whose `count.fetch_add` this grant executes, if it is one -/
+def claimEntry (s : Sys) (i : Nat) : Option (Nat × Nat) :=
+  match s.threads[i]? with
+  | none => none
+  | some th =>
+    match th.prog, th.pc with
+    | .push v c :: _, .selected _ => some (v, c)
+    | _, _ => none
+
+/-- claim order: the pushes of a schedule in the order of their `fetch_add`s (= the indices `0, 1, …` they get) -/
+def claimLog : Sys → List Nat → List (Nat × Nat)
+  | _, [] => []
+  | s, i :: sched => (claimEntry s i).toList ++ claimLog (cstep s i) sched
+
+/-- this grant is not a slot store that overtakes an earlier claim: if it is the store step of the push that claimed
+    `idx`, no thread holds a claimed-but-not-stored index below `idx` -/
+def storeInOrder (s : Sys) (i : Nat) : Bool :=
+  match s.threads[i]? with
+  | none => true
+  | some th =>
+    match th.pc with
+    | .claimed _ idx =>
+        s.threads.all (fun th' => match th'.pc with | .claimed _ idx' => decide (idx ≤ idx') | _ => true)
+    | _ => true
+
+/-- the slot stores of the schedule land in claim order -/
+def storesInOrder : Sys → List Nat → Bool
+  | _, [] => true
+  | s, i :: sched => storeInOrder s i && storesInOrder (cstep s i) sched
+
+/-- sequential `Reservoir::push`es of a list of `(value, raw random number)` -/
+def seqRun (r : Res) (l : List (Nat × Nat)) : Res := l.foldl (fun r vc => r.push vc.1 vc.2) r
+
 end MetricsVerif.Reservoir
